@@ -767,20 +767,22 @@ func (a *A) ruleRegisteredGoroutinesSpawned() int {
 		if phi, isPhi := cc.Args[len(cc.Args)-1].(*ssa.Phi); isPhi && g == nil {
 			leaves := phiLeafEdges(phi)
 			min, allK := int64(1<<62), len(leaves) > 0
+			vals := map[ssa.Value]int64{}
 			for _, l := range leaves {
-				k, isK := l.v.(*ssa.Const)
-				if !isK || k.Value == nil || k.Value.Kind() != constant.Int {
+				kv, isK := smallConstInt(l.v, 0)
+				if !isK {
 					allK = false
 					break
 				}
-				if k.Int64() < min {
-					min = k.Int64()
+				vals[l.v] = kv
+				if kv < min {
+					min = kv
 				}
 			}
 			if allK {
 				adds = append(adds, add{in, nil})
 				for _, l := range leaves {
-					if l.v.(*ssa.Const).Int64() <= min || l.from == nil {
+					if vals[l.v] <= min || l.from == nil {
 						continue
 					}
 					for _, gd := range guardsOf(l.from) {
@@ -923,4 +925,27 @@ func (a *A) closedOnGoroutineExit(ch ssa.Value) bool {
 		})
 	}
 	return found
+}
+
+
+// smallConstInt: v is an integer constant, or a sum of such (`tracked := 1; tracked++` is 1 + 1 in SSA form).
+func smallConstInt(v ssa.Value, d int) (int64, bool) {
+	if d > 4 {
+		return 0, false
+	}
+	switch x := v.(type) {
+	case *ssa.Const:
+		if x.Value != nil && x.Value.Kind() == constant.Int {
+			return x.Int64(), true
+		}
+	case *ssa.BinOp:
+		if x.Op == token.ADD {
+			a, oka := smallConstInt(x.X, d+1)
+			b, okb := smallConstInt(x.Y, d+1)
+			if oka && okb {
+				return a + b, true
+			}
+		}
+	}
+	return 0, false
 }
